@@ -109,7 +109,8 @@ type immut struct {
 	r       runFn
 	control func() runFn // the same construction on fresh objects, compiled once, never touched again
 	before  []runOut
-	stable  []bool
+	stable  []bool // results (values, errors, panics, interrupts) reproducible
+	tstable []bool // also the set of executed node bodies reproducible
 }
 
 // confirmRuns: a difference counts only if it is persistent (see confirm).
@@ -120,14 +121,29 @@ func newImmut(r runFn, control func() runFn, c *checker) *immut {
 	m.before = runAll(r)
 	again := runAll(r)
 	m.stable = make([]bool, len(runInputs))
+	m.tstable = make([]bool, len(runInputs))
 	for i := range m.before {
 		m.stable[i] = m.before[i].same(again[i])
+		m.tstable[i] = m.stable[i] && m.before[i].sameTrace(again[i])
 		if !m.stable[i] {
 			c.rep.Count("runs_not_reproducible_skipped", 1)
+		} else if !m.tstable[i] {
+			c.rep.Count("runs_with_irreproducible_set_of_executed_nodes", 1)
 		}
 	}
 	c.rep.Count("runnable_runs", int64(2*len(runInputs)))
 	return m
+}
+
+// differsFrom: does `now` deviate from the recorded outcome of input i, as far as that is reproducible?
+func (m *immut) differsFrom(i int, now runOut) bool {
+	switch {
+	case m.tstable[i]:
+		return !now.sameAll(m.before[i])
+	case m.stable[i]:
+		return !now.same(m.before[i])
+	}
+	return false
 }
 
 // confirm separates a runnable that was changed from a run whose outcome depends on scheduling
@@ -136,9 +152,9 @@ func newImmut(r runFn, control func() runFn, c *checker) *immut {
 // old outcome again in confirmRuns runs - and an untouched control built by the same calls on fresh
 // objects must give the old outcome in every one of confirmRuns runs.
 func (m *immut) confirm(r runFn, i int, c *checker) bool {
-	in, want := runInputs[i], m.before[i]
+	in := runInputs[i]
 	for k := 0; k < confirmRuns; k++ {
-		if r(in).same(want) {
+		if !m.differsFrom(i, r(in)) {
 			c.rep.Count("differences_not_persistent_skipped", 1)
 			return false
 		}
@@ -149,7 +165,7 @@ func (m *immut) confirm(r runFn, i int, c *checker) bool {
 		return false
 	}
 	for k := 0; k < confirmRuns; k++ {
-		if !ctl(in).same(want) {
+		if m.differsFrom(i, ctl(in)) {
 			c.rep.Count("differences_with_irreproducible_control_skipped", 1)
 			return false
 		}
@@ -163,7 +179,7 @@ func (m *immut) changed(c *checker) (bool, string) {
 	now := runAll(m.r)
 	c.rep.Count("runnable_runs", int64(len(runInputs)))
 	for i := range now {
-		if m.stable[i] && !now[i].same(m.before[i]) && m.confirm(m.r, i, c) {
+		if m.differsFrom(i, now[i]) && m.confirm(m.r, i, c) {
 			return true, fmt.Sprintf("input %q: before %s, afterwards %s", runInputs[i], m.before[i], now[i])
 		}
 	}
@@ -174,7 +190,7 @@ func (m *immut) differs(other runFn, c *checker) (bool, string) {
 	now := runAll(other)
 	c.rep.Count("runnable_runs", int64(len(runInputs)))
 	for i := range now {
-		if m.stable[i] && !now[i].same(m.before[i]) && m.confirm(other, i, c) {
+		if m.differsFrom(i, now[i]) && m.confirm(other, i, c) {
 			return true, fmt.Sprintf("input %q: first runnable %s, re-compiled runnable %s", runInputs[i], m.before[i], now[i])
 		}
 	}
